@@ -290,6 +290,11 @@ def _run(rng, tier, index, alg, form, res, tr, ch):
         # the verifier holds public material that crossed the directory
         vform = "jwk" if any(k.kid for k in rkeys) or any(k.kty == "oct" for k in rkeys) else erng.pick(["jwk", "pem", "der"])
         pubs = [k if k.kty == "oct" else k.public() for k in rkeys]
+        if vform == "jwk" and erng.chance(0.3):
+            # the directory marks what the verifier's copy is for; a verify-only key must still verify
+            mark = erng.pick([{"key_ops": ["verify"]}, {"use": "sig"}, {"use": "sig", "key_ops": ["verify"]}, {"key_ops": ["verify", "sign"]}])
+            pubs = [RKey(k.kty, k.crv, k.pub, k.priv, k.k, dict(k.params or {}, **mark)) for k in pubs]
+            res.probe("verifier-key-marked:" + "+".join(sorted(mark)))
         if len(pubs) > 1:
             kind = erng.pick(["set", "callable-key", "callable-set"])
         elif pubs[0].kid:
